@@ -126,6 +126,25 @@ CLAIMED["C15"] = ("property-based testing (Hypothesis) with two generators: (a) 
                   "cases; does not prove absence.",
                   "DESIGN.md section 5 (C15)", DS_NOTE)
 
+CLAIMED["C18"] = ("property-based fault injection (Hypothesis): generated contexts and call lists where the k-th "
+                  "allocation event of the calling thread (malloc family, mmap, pthread_create, pthread_*_init, "
+                  "intercepted with ld --wrap) fails, for 35 creating / initialising routines and ABT_init; "
+                  "oracle: error code, NULL-or-untouched handle, snapshot of pre-existing objects, successful "
+                  "retry, follow-up workload, empty resource ledger after ABT_finalize",
+                  "fault_enumeration",
+                  "For each generated case (environment x 1-3 streams x caller kind x list of (routine, arguments, k)) "
+                  "every call is made with allocation event k failing; k is drawn from 1..16, which covers every "
+                  "event index observed for all routines except stream creation beyond 16; the thorough tier draws "
+                  "~190k calls. Checked per call: no crash (ASan/UBSan builds, with and without memory pools), "
+                  "documented handle value, unchanged getters of every pre-existing object, retry succeeds, result "
+                  "usable; per case: ledger of mallocs, mappings and pthread objects empty after finalize and after "
+                  "a failed ABT_init. Single failures only (no persistent out-of-memory), failures on the calling "
+                  "thread only; ABT_thread_create_many is excluded (documented as undefined on error).",
+                  "DESIGN.md section 5 (C18)",
+                  "Trusted base: ld --wrap interception (libc-internal allocations are invisible), the executor's "
+                  "oracle in exec/faults.c, gcc sanitizers. Sampled, not exhaustive, over argument and context "
+                  "combinations; per-(routine,k) hit counts are in the evidence file.")
+
 NOT_BUILT = "check not built yet in this session (see DESIGN.md section 10 for the build order)"
 
 
